@@ -7,6 +7,10 @@ The reference response is judged as in C01 (walk model + selection-semantics ora
 must have answered the same (data, error paths and classes, invocations with the arguments received). -/
 def handle (tb : Tables) (c impl : T) : String :=
   match c, impl with
+  | .node "c02p" [_], .node "obs" [ok] =>
+    -- a root resolver whose Len / Nth are not plain indexing, over lists held by different Go types: the model is the
+    -- property (the root resolver takes precedence over reflection): the response is the one Len / Nth dictate
+    if ok == T.ofBool true then "ok" else "mismatch spec-bad (obs true)"
   | .node "c02e" [_], .node "l" obs =>
     -- empty lists behind every list representation: (s STRATEGY RESPONSE-as-encoding/json-writes-it)…; the model is
     -- the property: every representation gives the same response, and it holds a list, not null
